@@ -30,7 +30,7 @@ func runUniverse(rep *rt.Report, u universe, deadline time.Time) *seq.Stats {
 		OpName: func(i int) string { return evs[i].String() },
 		Enabled: func(h []uint8, op int) bool {
 			e := evs[op]
-			if e.K == 's' || e.K == 'r' || e.K == 'c' || e.K == 'C' {
+			if e.K == 's' || e.K == 'r' || e.K == 'c' || e.K == 'C' || e.K == 'S' {
 				for _, x := range h {
 					if evs[x].K == 'C' && evs[x].B == e.B {
 						return false // a block is committed once; no writes into it afterwards
@@ -100,6 +100,7 @@ func C06(tier rt.Tier) int {
 		}
 		us = append(us, universe{name: "chain4", parents: []int{-1, 0, 1, 2}, keys: []string{"k"}, txns: 1, kinds: []int{0}, depth: 40})
 		us = append(us, universe{name: "fork-2txns", parents: []int{-1, 0, 0}, keys: []string{"k"}, txns: 2, kinds: []int{0}, depth: 40})
+		us = append(us, universe{name: "chain3-direct-block-set", parents: []int{-1, 0, 1}, keys: []string{"k"}, txns: 1, kinds: []int{0}, depth: 40, directSet: true})
 	} else {
 		per = 90 * time.Second
 		for i, s := range shapes(4) {
@@ -132,6 +133,9 @@ func C07(tier rt.Tier) int {
 			us = append(us, mk(fmt.Sprintf("3blocks-shape%d-mutval+leaf+full", i), s, []string{"k"}, 1, []int{1, 2, 3}))
 		}
 		us = append(us, mk("fork-2txns-ext+valuenode", []int{-1, 0, 0}, []string{"k"}, 2, []int{4, 5, 1}))
+		ds := mk("chain3-direct-block-set", []int{-1, 0, 1}, []string{"k"}, 1, []int{1, 2, 3})
+		ds.directSet = true
+		us = append(us, ds)
 	} else {
 		per = 90 * time.Second
 		for i, s := range shapes(4) {
